@@ -2,6 +2,11 @@
 props — per-property configuration of ./check.
 """
 
+def proj_c08(op, s):
+    if op == "pubkey_parse" and s.startswith("err "):
+        return "reject"
+    return s
+
 def proj_c09(op, s):
     if op == "der_parse" and s.startswith("err "):
         return "reject"
@@ -18,6 +23,14 @@ UNDER_CONSTRUCTION = "machinery for this property is still under construction in
 NOT_APPLICABLE = {("C%02d" % i): UNDER_CONSTRUCTION for i in range(1, 21)}
 
 PROPS = {
+    "C08": {
+        "level_text": "Machine-checked theorems (Lean 4 kernel, Mathlib ZMod P with a Pratt-certificate proof that P is prime) for ALL byte strings about a hand-written model of ParsePubKey / Serialize* / schnorr.ParsePubKey: never panics; accepts exactly the valid SEC1 compressed/uncompressed/hybrid encodings of curve points with coordinates < P (using Euler's criterion for the square-root test and that -7 is not a cube mod P), returns that very point, never an off-curve key; each error kind names a rule really violated; all serialise/parse round trips incl. byte-for-byte reproduction of canonical inputs. Tied to the code by a correspondence run: all 256 tag bytes x both lengths, lengths 0..70, x >= P, non-residue x, flipped / mismatched-parity / off-curve y, bit flips; every op is also compared with a specification-level verdict computed independently of the model.",
+        "level_note": "Trusted: Lean kernel + Mathlib definitions of ZMod/IsSquare; hand-written model mirrors pubkey.go (validated on generated inputs); field arithmetic inside the parser is modelled at value level (x, y as naturals mod P) - the limb level is C05/C16.",
+        "technique": "Lean 4 proof over a hand-written model (Secp.Props.C08) + differential correspondence with ParsePubKey and an independent spec oracle",
+        "project": proj_c08,
+        "trusted_base": COMMON_TRUST + ["Mathlib ZMod / Euler criterion", "Model.parsePubKey mirrors pubkey.go (hand-written)"],
+        "assumptions": ["field operations inside ParsePubKey are exact mod P (this is what C05/C16 establish at limb level)"],
+    },
     "C19": {
         "level_text": "Machine-checked theorems (Lean 4 kernel), by induction over the entropy stream, about a hand-written model of generatePrivateKey/PrivKeyFromBytes/Serialize/Zero: success iff some whole 32-byte block is in [1,N-1], the key is exactly the FIRST such block, exactly the blocks up to it are consumed, earlier blocks are discarded never reduced; otherwise the io.ReadFull error (reader error / ErrUnexpectedEOF) and no key; load+serialise = be32(first 32 bytes mod N); Zero clears. Tied to the code by running scripted readers (arbitrary chunking, failure at every offset 0..96, error returned with data) through GeneratePrivateKeyFromRand and diffing result and bytes consumed.",
         "level_note": "Trusted: Lean kernel; io.ReadFull's documented contract (the reader is abstracted to the bytes it delivers and its terminal error); the hand-written model mirrors privkey.go (validated on generated streams); SetBytes at value level (limb level is C06).",
